@@ -429,9 +429,9 @@ type refInst struct {
 	// baseStr: the value being refined as it printed before the builder existed
 	baseStr string
 	b       *cty.RefinementBuilder
-	m    *refModel
-	dead bool
-	last cty.Value
+	m       *refModel
+	dead    bool
+	last    cty.Value
 }
 
 func (in *refInst) Apply(op int, check bool, report func(site, shape, detail string)) bool {
